@@ -387,6 +387,9 @@ class Scenario:
             if self.rng.random() > self.hostile:
                 return
             self.legal = False
+        if self.frag and not term and (m['kind'] == 'rr' or m.get('subscribed')) and self.rng.random() < 0.12:
+            self.abandoned_train(oid, m)
+            return
         if m['kind'] == 'rr':
             if self.rng.random() < 0.75:
                 self._inject({'t': 'Payload', 'sid': sid, 'ign': False, 'follows': False, 'complete': True, 'next': True,
@@ -430,6 +433,33 @@ class Scenario:
             m['peer_term'] = True
         if m.get('peer_term') and m['kind'] == 'rs':
             m['done'] = True
+
+    def abandoned_train(self, oid, m):
+        """the interaction ends in the middle of an inbound fragment train and the peer never sends the rest: the requester
+        cancels after the first fragment(s) (the responder honours CANCEL by dropping what it had queued), or the responder
+        fails and sends ERROR instead of the remaining fragments"""
+        sid = m['sid']
+        fr = {'t': 'Payload', 'sid': sid, 'ign': False, 'follows': False, 'complete': m['kind'] == 'rr', 'next': True,
+              'md': b'', 'd': b'T' * self.rng.choice([150, 260])}
+        frs = self._fragments(fr)
+        for b in frs[:self.rng.randrange(1, len(frs))]:
+            self.rec.t.inject_frame(b)
+            self.rec.settle()
+        self.trains_abandoned = getattr(self, 'trains_abandoned', 0) + 1
+        m['peer_term'] = True
+        m['done'] = True
+        if self.rng.random() < 0.5:
+            self._inject({'t': 'Error', 'sid': sid, 'ign': False, 'code': 0x201, 'd': b'failed mid-train'})
+        elif m['kind'] == 'rr':
+            self.rec.label('futcancel', oid)
+            self.rec.act(lambda: m['fut'].cancel())
+            self.rec.settle()
+        else:
+            obj = m['obj']
+            self.rec.label('cancel', oid)
+            self.rec.act(lambda: obj.cancel())
+            m['cancelled'] = True
+            self.rec.settle()
 
     def hostile_frame(self):
         """anything a misbehaving peer can send: frames for unknown / finished streams, reused ids, odd types, bad text"""
